@@ -17,8 +17,8 @@ Theorem C01_faithful_refines_spec : forall os,
   saccept s_init (combine os (snd (wrun true w_init os))) 0 = None.
 Proof. intros os. exact (proj1 (wrun_accepted os w_init s_init 0%nat RW_init)). Qed.
 
-(* ... and never panics *)
-Theorem C01_faithful_never_stuck : forall os, w_is_stuck (fst (wrun true w_init os)) = false.
+(* ... and neither the allocator nor the world-level glue (unwrap/expect/assert) ever panics *)
+Theorem C01_faithful_never_stuck : forall os, w_alloc_stuck (fst (wrun true w_init os)) = false.
 Proof. exact wrun_never_stuck. Qed.
 
 (* non-vacuity: a history with reuse of an index, deferred creation and a
